@@ -112,9 +112,9 @@ def run_repro(ctx, n):
     inproc = {}
     for s in seeds:
         spec = spec_for(s)
-        a = run_once(spec, 12345 + s % 1000)
         if spec["wrappers"] == "cache":
-            pollute(spec)
+            pollute(spec)      # this interpreter has already optimised something else with the same seed and box (fresh processes have not)
+        a = run_once(spec, 12345 + s % 1000)
         b = run_once(spec, 999 + s % 777)
         inproc[s] = (spec, a, b)
         if a["digest"] != b["digest"]:
